@@ -20,13 +20,21 @@ REPLAYS = VERIF / "replays"
 KNOWN = VERIF / "known_findings.json"
 
 
+LOAD_ERRORS = []
+
+
 def load_units() -> dict:
     units = {}
     for p in sorted((VERIF / "units").glob("*/unit.py")):
-        spec = importlib.util.spec_from_file_location(f"unit_{p.parent.name}", p)
-        m = importlib.util.module_from_spec(spec)
-        spec.loader.exec_module(m)
-        us = m.units() if hasattr(m, "units") else [m.unit()]
+        try:
+            spec = importlib.util.spec_from_file_location(f"unit_{p.parent.name}", p)
+            m = importlib.util.module_from_spec(spec)
+            spec.loader.exec_module(m)
+            us = m.units() if hasattr(m, "units") else [m.unit()]
+        except Exception as e:  # a broken unit definition must not take the other units down
+            print(f"WARNING: unit definition {p} could not be loaded: {e!r}", file=sys.stderr)
+            LOAD_ERRORS.append(str(p))
+            continue
         for u in us:
             units[u.name] = u
     return units
